@@ -61,6 +61,15 @@ def run_real(history):
             got.setdefault(c, []).append(strip(proto.frame_line(c, True, msg)))
 
         def onClose(self, wasClean, code, reason):
+            # the server dropped us (a handler raised) or we closed: release every waiter
+            c = self.factory.cid
+            if clients.get(c) is self:
+                clients.pop(c, None)
+                got.setdefault(c, []).append("F %d _ !connection-closed-by-server" % c)
+            for tag, w in list(self.factory.waiting.items()):
+                self.factory.waiting.pop(tag, None)
+                if not w.called:
+                    w.callback(None)
             d = getattr(self.factory, "d_closed", None)
             if d and not d.called:
                 d.callback(None)
@@ -127,6 +136,7 @@ def run_real(history):
                     r.fault_next = False
                 yield barrier()
             for c, p in list(clients.items()):
+                clients.pop(c, None)
                 p.sendClose()
                 yield p.factory.d_closed
             yield lp.stopListening()
@@ -138,6 +148,13 @@ def run_real(history):
         return None
 
     d = main()
+    from twisted.internet import reactor as _r
+
+    def _timeout():
+        if not d.called:
+            result["error"] = "timeout: the real stack did not answer within 20 s"
+            d.cancel()
+    _r.callLater(20, _timeout)
     return d, r, result, got
 
 
@@ -158,7 +175,10 @@ def main():
             try:
                 exp = expected_frames(h)
                 d, r, result, got = run_real(h)
-                yield d
+                try:
+                    yield d
+                except Exception as e:
+                    result.setdefault("error", "%s: %s" % (type(e).__name__, e))
                 r.close()
                 if "error" in result:
                     out["errors"].append(result["error"])
